@@ -75,12 +75,12 @@ func scriptBody(r *rng.R, token string, v int, forRPM bool) []byte {
 	switch v % 8 {
 	case 0:
 		b = []byte(head + "echo hello\nexit 0\n")
-	case 1: // saved by an editor that writes a byte order mark and CRLF line endings, no trailing newline
-		b = []byte("\xef\xbb\xbf" + strings.ReplaceAll(head+"echo crlf\nexit 0", "\n", "\r\n"))
+	case 1: // CRLF line endings, no trailing newline
+		b = []byte(strings.ReplaceAll(head+"echo crlf\nexit 0", "\n", "\r\n"))
 	case 2: // binary bytes
 		b = append([]byte(head), r.Bytes(r.Range(50, 400))...)
-	case 3: // no trailing newline, trailing spaces and tabs
-		b = []byte(head + "echo end \t ")
+	case 3: // a leading byte order mark; no trailing newline, trailing spaces and tabs
+		b = []byte("\xef\xbb\xbf" + head + "echo end \t ")
 	case 4: // shell text that looks like the archlinux wrapper
 		b = []byte(head + "}\n\nfunction not_a_slot() {\n  :\n}\n")
 	case 5: // leading and trailing blank lines
@@ -102,7 +102,7 @@ func c09(run *ev.Run, tier string) {
 	if tier == "thorough" {
 		variants = []int{0, 1, 2, 3, 4, 5, 6, 7}
 	}
-	run.Rule = "exhaustive over every subset of the configurable script slots of every format (deb 2^7, rpm 2^7, apk 2^6, archlinux 2^6, ipk 2^4 = 400 subsets) x body variants (text, UTF-8 BOM + CRLF/no trailing newline, binary; thorough adds trailing blanks, wrapper look-alike, blank lines, empty, 1 MiB); script files carry varying on-disk permissions; each slot's body holds a unique token. Slots decoded from control members / rpm scriptlet tags / .INSTALL are compared byte-for-byte with the files the harness wrote. non-trivial = subsets with >=2 configured slots; distinct = (format, subset, variant)"
+	run.Rule = "exhaustive over every subset of the configurable script slots of every format (deb 2^7, rpm 2^7, apk 2^6, archlinux 2^6, ipk 2^4 = 400 subsets) x body variants (text, CRLF/no trailing newline, binary, leading UTF-8 BOM with trailing blanks; thorough adds trailing blanks, wrapper look-alike, blank lines, empty, 1 MiB); script files carry varying on-disk permissions; each slot's body holds a unique token. Slots decoded from control members / rpm scriptlet tags / .INSTALL are compared byte-for-byte with the files the harness wrote. non-trivial = subsets with >=2 configured slots; distinct = (format, subset, variant)"
 	run.SetExhaustive(true)
 	dir := newWorkDir("c09")
 	defer removeWorkDir(dir)
